@@ -26,6 +26,8 @@ TEXT = {
          "The rule 'index iff integer literal and 0<=n<=MaxIdx and not a single numeric key under EnableNumKeys' is the specification's; TLC checks the allocation bound and name round-trip on the whole table; every combination is replayed three ways on the code and the resulting structure, getter/Has/Remove read-back and list length are compared; random literals in every Go syntax are validated by TLC."),
  "C17": ("parse", "TLA+ transcription of the recursive-descent value parser (UcfgParseValue) over character sequences: TLC checks Parse(Render(doc)) = doc and totality; exhaustive replay of all short strings under four parser configs + JSON documents; random encoding/json documents trace-validated",
          "The specification parses the same characters as the code (stop sets, trimming, trailing commas, top-level comma lists, quoting, escapes); every string up to the length bound is replayed under DefaultConfig/EnvConfig/NoopConfig/IgnoreCommas and the value or error/panic outcome compared; JSON documents rendered by the spec (compact, indented) must read back as the data they denote; 5k-100k random documents written by encoding/json are validated by TLC against the same parser."),
+ "C19": ("flags", "TLA+ collector state machine (UcfgFlags) composed from the parser, normalisation and merge specifications: TLC checks fold/sticky-error/empty/bare laws; every argument sequence replayed on a real flag.FlagValue; random sequences trace-validated",
+         "State = (config, first error); Set(arg) = split at '=', bare key => true, empty value => no-op, malformed => sticky error, else Normalize({key: Parse(value)}) merged with the flag's own policy. Every prefix+argument of the bounded universe is a replayed transition comparing Config() and Error(); random 8-argument sequences are validated by TLC."),
 }
 NOTE = "bounded universes (stated in evidence.rule); projection through the public API; TLC/JVM/Go runtime trusted; Ideal layer + named deviations listed in known_findings.json"
 
@@ -39,6 +41,8 @@ m = dict(
                source_commits=[], add_only=True),
     
     engines=[
+        dict(name="flags", path="spec/UcfgFlags.tla", serves_properties=["C19"],
+             kind_free_text="TLA+ flag collector on top of UcfgParseValue+UcfgNormalize+UcfgMerge; Gen_Flags/Trace_Flags; harness/cmd/ucfgconf/fam_flags.go"),
         dict(name="parse", path="spec/UcfgParseValue.tla", serves_properties=["C17", "C07", "C19"],
              kind_free_text="TLA+ recursive-descent parser over character sequences, JSON rendering; Gen_Parse/Trace_Parse; harness/cmd/ucfgconf/fam_parse.go"),
         dict(name="paths", path="spec/UcfgPaths.tla", serves_properties=["C20"],
